@@ -4,6 +4,42 @@ Import ListNotations.
 From CF Require Import PyDict TranslatedImpCFDivisor.
 Open Scope Z_scope.
 
+(* chipfiring/CFConfig.py :: CFConfigMoves.get_degree_at   reads ['self_q_vertex', 'self_v_tilde_vertices', 'self_divisor_degrees'], writes [], may raise *)
+Definition CFConfigMoves_get_degree_at (self_q_vertex : nat) (self_v_tilde_vertices : list nat) (self_divisor_degrees : dictZ) (vertex_name : nat) : pyres (unit) Z :=
+  let v := vertex_name in
+  if (Nat.eqb v self_q_vertex) then
+  PyExn tt
+  else
+  if (negb (s_mem v self_v_tilde_vertices)) then
+  PyExn tt
+  else
+  match CFDivisor_get_degree self_divisor_degrees vertex_name with PyExn _ => PyExn tt | PyOk t1_ =>
+  PyOk (t1_) end.
+
+(* chipfiring/CFConfig.py :: CFConfigMoves.is_non_negative   reads ['self_v_tilde_vertices', 'self_q_vertex', 'self_divisor_degrees'], writes [], may raise *)
+Definition CFConfigMoves_is_non_negative (self_v_tilde_vertices : list nat) (self_q_vertex : nat) (self_divisor_degrees : dictZ) (set_order : list nat -> list nat) : pyres (unit) bool :=
+  match fold_left (fun acc_ v_node => match acc_ with PyExn e_ => PyExn e_ | PyOk (Some r_, tt) => PyOk (Some r_, tt) | PyOk (None, tt) => 
+  match CFConfigMoves_get_degree_at self_q_vertex self_v_tilde_vertices self_divisor_degrees v_node with PyExn _ => PyExn tt | PyOk t1_ =>
+  if (t1_ <? 0) then
+  PyOk (Some (false), tt)
+  else
+  PyOk (None, tt) end end) (set_order self_v_tilde_vertices) (PyOk (None, tt)) with PyExn e_ => PyExn e_ | PyOk (Some r_, tt) => PyOk (r_) | PyOk (None, tt) =>
+  PyOk (true) end.
+
+(* chipfiring/CFConfig.py :: CFConfigMoves.get_degree_sum   reads ['self_v_tilde_vertices', 'self_q_vertex', 'self_divisor_degrees'], writes [], may raise *)
+Definition CFConfigMoves_get_degree_sum (self_v_tilde_vertices : list nat) (self_q_vertex : nat) (self_divisor_degrees : dictZ) (set_order : list nat -> list nat) : pyres (unit) Z :=
+  let current_sum := 0 in
+  match fold_left (fun acc_ v_node => match acc_ with PyExn e_ => PyExn e_ | PyOk current_sum => 
+  match CFConfigMoves_get_degree_at self_q_vertex self_v_tilde_vertices self_divisor_degrees v_node with PyExn _ => PyExn tt | PyOk t1_ =>
+  let current_sum := (current_sum + t1_) in
+  PyOk current_sum end end) (set_order self_v_tilde_vertices) (PyOk current_sum) with PyExn e_ => PyExn e_ | PyOk current_sum =>
+  PyOk (current_sum) end.
+
+(* chipfiring/CFConfig.py :: CFConfigMoves.get_q_underlying_degree   reads ['self_divisor_degrees', 'self_q_vertex'], writes [], may raise *)
+Definition CFConfigMoves_get_q_underlying_degree (self_divisor_degrees : dictZ) (self_q_vertex : nat) : pyres (unit) Z :=
+  match CFDivisor_get_degree self_divisor_degrees self_q_vertex with PyExn _ => PyExn tt | PyOk t1_ =>
+  PyOk (t1_) end.
+
 (* chipfiring/CFConfig.py :: CFConfigMoves.set_fire   reads ['self_q_vertex', 'self_v_tilde_vertices', 'self_divisor_graph_graph', 'self_divisor_degrees'], writes ['self_divisor_degrees'], may raise *)
 Definition CFConfigMoves_set_fire (self_q_vertex : nat) (self_v_tilde_vertices : list nat) (self_divisor_graph_graph : dictD) (self_divisor_degrees : dictZ) (set_order : list nat -> list nat) (S_vertex_names : list nat) : pyres (dictZ) (dictZ) :=
   match fold_left (fun acc_ name => match acc_ with PyExn e_ => PyExn e_ | PyOk tt => 
